@@ -51,6 +51,7 @@ def run(tier, seed):
                 r = ac.case_recipe(G, classes.enz_spec(e), rng, rng.randint(1, min(4, G.capacity() - 1)))
                 if r:
                     recipes.append(r)
+    recipes += ac.curated_many_refs(rng, 2 if q else 8)       # curated inputs (feature tables, long reference lists) assemble like bare ones
     ac.validate(run, "assemblies", recipes)
     if True:       # canonical assemblies of real registry plasmids (kb-size, annotated)
         from . import registry_asm
